@@ -133,6 +133,12 @@ func TypeAwareUnmarshalValue(self interface{}, typ ast.Type) *Value {
 	case bool:
 		return NewValueBool(self)
 	case map[string]interface{}:
+		if typ.Kind() == ast.AnyObjectTypeKind {
+			// `{ ? }` says nothing about the content: read it untyped
+			if untyped, i := UnmarshalValue(herrors.Span{}, self); i == nil {
+				return (*untyped).(ValueObject).IntoAnyObject()
+			}
+		}
 		typeFields := typ.(ast.ObjectType).ObjFields
 
 		fields := make(map[string]*Value)
